@@ -63,7 +63,7 @@ from apischema.serialization.serialized_methods import (
     get_serialized_methods,
 )
 from apischema.type_names import TypeNameFactory, get_type_name
-from apischema.types import AnyType, UndefinedType
+from apischema.types import AnyType, Undefined, UndefinedType
 from apischema.typing import get_args, get_origin, is_typed_dict, is_union
 from apischema.utils import (
     context_setter,
@@ -242,9 +242,12 @@ class SchemaBuilder(
         if not required and "default" not in result:
             result = JsonSchema(result)
             with suppress(Exception):
+                default = field.get_default()
+                if default is Undefined:  # absent field has no default in the schema
+                    raise ValueError
                 result["default"] = serialize(
                     field.type,
-                    field.get_default(),
+                    default,
                     fall_back_on_any=False,
                     check_type=True,
                     conversion=field.serialization,
